@@ -752,6 +752,7 @@ func init() {
 			parts = append(parts, "chains and cycles of 9,10,11,12 edges (both families); 10000 seeded random graphs on 4..14 names with policies of <=5 rules")
 		}
 		c16Corner(c)
+		parts = append(parts, c16Histories(c))
 		c16ProbeF37(c)
 		c.Exhaust = false
 		c.Rule = "real enforcers for examples/rbac_model.conf and rbac_with_domains_model.conf, policy via AddPolicy/AddGroupingPolicy; " + strings.Join(parts, "; ") +
